@@ -73,6 +73,42 @@ class Cfg:
 
 # ------------------------------------------------------------------ S2: bin <-> tap pairing
 
+def _ctor_fields(L, D, real):
+    """fields the real constructor caches and a hand-built instance does not know about (taken from the real __init__ of a
+    second, NumPy-backed load of compute.py run on a stub bank / window with this frame length and padding)"""
+    import numpy
+    from vlib import loader
+    ns = loader.load_unit('compute', {'np': numpy}, name='compute_ctor_%d_%d' % (L, D))
+    LFB, WF = ns['LinearFilterBank'], ns['WindowFunction']
+
+    class StubBank(LFB):
+        is_real = real
+        is_analytic = False
+        is_zero_phase = True
+        num_filts = 1
+        sampling_rate = 1000
+        supports = ((-1, 1),)
+        supports_hz = ((100.0, 300.0),)
+
+        def get_impulse_response(s, i, w):
+            raise AssertionError
+
+        def get_frequency_response(s, i, w, half=False):
+            raise AssertionError
+
+        def get_truncated_response(s, i, w):
+            return (0, numpy.ones(1, dtype=complex))
+
+    class StubWin(WF):
+        def get_impulse_response(s, width):
+            return numpy.ones(width)
+    c = ns['ShortTimeFourierTransformFrameComputer'](StubBank(), frame_length_ms=L, frame_shift_ms=1, frame_style='causal',
+                                                    pad_to_nearest_power_of_two=(D != L), window_function=StubWin())
+    if c._dft_size != D or c._frame_length != L:
+        raise symex.Inconclusive('constructor gives frame length %s / DFT size %s for L=%d, D=%d' % (c._frame_length, c._dft_size, L, D))
+    return dict(c.__dict__)
+
+
 def run_walk(cfg):
     D, real = cfg['D'], cfg['real']
     L = cfg.get('L', D)
@@ -93,6 +129,7 @@ def run_walk(cfg):
             return v
 
     ns = sc.load_compute({'np': NPx, 'config': Cfg})
+    extra_fields = _ctor_fields(L, D, real)
     viol, samples = [], []
     ob = dis = 0
     reached = False
@@ -133,6 +170,9 @@ def run_walk(cfg):
         o._window = 1
         o._filt_start_idxs = [SInt(start)]
         o._truncated_filts = [SArr(SInt(tl), lambda j: j)]
+        for k_, v_ in extra_fields.items():
+            if k_ not in o.__dict__:
+                o.__dict__[k_] = v_
         segs = []
 
         def nl(prod):
